@@ -522,6 +522,9 @@ pub fn c03_scenario(ch: &mut Chooser, thorough: bool) -> Exec {
     let random = ch.flag("random_link_failures");
     // host sets: the pair (A, B) by name, or "B against every host" through an overlapping regex
     let wide = ch.flag("host_set_is_b_against_regex_all");
+    // both sides of every call named by one and the same regular expression matching A and B:
+    // a one-way call then covers both directions between them
+    let same_regex = !wide && !from_host && !random && ch.flag("both_host_sets_are_the_regex_matching_a_and_b");
     let (fail, repair) = if random { (0.5, 0.5) } else { (0.0, 1.0) };
     // coins are answered by the explorer (deviation = "yes")
     let chp: *mut Chooser = ch;
@@ -579,7 +582,16 @@ pub fn c03_scenario(ch: &mut Chooser, thorough: bool) -> Exec {
             if !suffix {
                 calls += 1;
             }
-            let (desc, newpart): (&str, [Option<bool>; 3]) = match (call, wide) {
+            let ab = || regex::Regex::new("^h[ab]$").unwrap();
+            let (desc, newpart): (&str, [Option<bool>; 3]) = if same_regex {
+                match call {
+                    1 => ("partition(/a|b/, /a|b/)", [Some(true), Some(true), None]),
+                    2 | 3 => ("partition_oneway(/a|b/ -> /a|b/)", [Some(true), Some(true), None]),
+                    4 => ("repair(/a|b/, /a|b/)", [Some(false), Some(false), None]),
+                    _ => ("repair_oneway(/a|b/ -> /a|b/)", [Some(false), Some(false), None]),
+                }
+            } else {
+                match (call, wide) {
                 (1, false) => ("partition(A,B)", [Some(true), Some(true), None]),
                 (2, false) => ("partition_oneway(A->B)", [Some(true), None, None]),
                 (3, false) => ("partition_oneway(B->A)", [None, Some(true), None]),
@@ -592,6 +604,7 @@ pub fn c03_scenario(ch: &mut Chooser, thorough: bool) -> Exec {
                 (4, true) => ("repair(B, /all/)", [Some(false), Some(false), Some(false)]),
                 (5, true) => ("repair_oneway(/all/ -> B)", [Some(false), None, None]),
                 (_, true) => ("repair_oneway(B -> /all/)", [None, Some(false), Some(false)]),
+                }
             };
             obs.push(format!("before step {k}: {desc}{}", if from_host && !suffix { " (from host code, during the step)" } else { "" }));
             let hc = match call {
@@ -602,7 +615,14 @@ pub fn c03_scenario(ch: &mut Chooser, thorough: bool) -> Exec {
                 5 => HostCmd::RepairOneway(0, 1),
                 _ => HostCmd::RepairOneway(1, 0),
             };
-            if wide {
+            if same_regex {
+                match call {
+                    1 => net.sim.partition(ab(), ab()),
+                    2 | 3 => net.sim.partition_oneway(ab(), ab()),
+                    4 => net.sim.repair(ab(), ab()),
+                    _ => net.sim.repair_oneway(ab(), ab()),
+                }
+            } else if wide {
                 // regex host sets are only reachable from the Sim handle in this harness
                 match call {
                     1 => net.sim.partition(NAMES[1], all()),
@@ -716,8 +736,8 @@ pub fn c03_scenario(ch: &mut Chooser, thorough: bool) -> Exec {
     }
     obs.push(format!("recv={:?}", net.st.borrow().recv));
     if let Some(v) = violation.as_mut() {
-        v.sig = format!("{}|random={}|from_host={}|wide={}", v.clause, random, from_host, wide);
-        v.scenario = format!("c03 tier={} steps={steps} calls<={max_calls} from_host={from_host} order_ba={order_ba} random={random} (rate set by {}) wide={wide}", if thorough { "thorough" } else { "quick" }, ["builder", "Sim::set_fail_rate", "Sim::set_link_fail_rate(A,B)"][rate_via]);
+        v.sig = format!("{}|random={}|from_host={}|wide={}", v.clause, random, from_host, wide || same_regex);
+        v.scenario = format!("c03 tier={} steps={steps} calls<={max_calls} from_host={from_host} order_ba={order_ba} random={random} (rate set by {}) wide={wide} same_regex={same_regex}", if thorough { "thorough" } else { "quick" }, ["builder", "Sim::set_fail_rate", "Sim::set_link_fail_rate(A,B)"][rate_via]);
         v.actions = obs.clone();
     }
     Exec { outcome: Digest::of64(&obs), violation, features: feats }
